@@ -458,3 +458,43 @@ def run_witness(w, bad_expr):
             result = ex
     bad = bool(eval(bad_expr, {'result': result, 'math': math, 'np': np, 'isinstance': isinstance, 'Exception': Exception}))
     return bad, repr(result)
+
+
+# ----------------------------------------------------------------------------- native instances of lemmas (vacuity guard + bounded test)
+def lemma_instances(lem, registry, seed=0, tries=400, want=5):
+    """random small inputs; those satisfying every `requires` are run through the lemma body with the REAL functions.
+    -> dict(tried, satisfied, violated: [...])"""
+    import random
+    from . import calls as _calls
+    rng = random.Random('lemma-%s-%d' % (lem.name, seed))
+    if any(isinstance(k, kinds.KObj) for k in lem.param_kinds.values()):
+        return dict(tried=0, satisfied=0, violated=[], note='parameters of an abstract sort: not instantiable natively')
+    satisfied, violated, tried = 0, [], 0
+    while tried < tries and satisfied < want:
+        tried += 1
+        inp = {p: random_value(lem.param_kinds[p], rng) for p in lem.param_names}
+        # related arrays usually share their length
+        arrs = [p for p in inp if isinstance(inp[p], list)]
+        if len(arrs) > 1 and rng.random() < 0.8:
+            m = min(len(inp[p]) for p in arrs)
+            for p in arrs:
+                inp[p] = inp[p][:m]
+        eng = contract.spec_engine(lem.sidecar, lem.fd, 'lemma.' + lem.name, registry)
+        eng.spec_mode = False
+        eng.lemma_mode = True
+        eng.concrete = True
+        st = St()
+        try:
+            st.env = {p: lift(to_native(lem.param_kinds[p], inp[p]), st) for p in lem.param_names}
+            outs = eng.run_body(lem.body, st)
+        except _calls.LemmaInstanceDiscarded:
+            continue
+        except Exception:
+            continue
+        if any(o[1][0] == 'raise' for o in outs):
+            continue
+        satisfied += 1
+        for label, ok in eng.instance_results:
+            if ok is False:
+                violated.append(dict(inputs=inp, clause=label))
+    return dict(tried=tried, satisfied=satisfied, violated=violated[:3])
